@@ -13,7 +13,8 @@ WHAT = {
 
 def run(repo, chk):
     chk.explanation = ('ORDER: the stand-alone decoder collapses repeats before dropping blanks; OFFSET: in the engine decoder the class-id '
-                       'shift, the blank constant, the drop sentinel and the prepended frame cancel exactly (integer offset algebra on the constants found in the source).')
+                       'shift, the blank constant, the drop sentinel and the prepended frame cancel exactly (integer offset algebra on the constants found in the source). '
+                       'WRAP: no cyclic shift (torch.roll / np.roll) of the arg-max path stands in for the prepended blank frame.')
     chk.note_undecided('agreement of the two decoders on every tensor (equality of two array programs)', 'the unusable 2-D branch of greedy_decode_ctc')
     R = Rules(repo, chk)
     refcheck.run_all(R, repo, chk, 'RECUR', 'greedy_ref.py', WHAT)
